@@ -308,11 +308,22 @@ func (s *StateMachine) ApplyTransactions(ctx context.Context, txs [][]byte, r *l
 	if s.Metrics != nil {
 		s.Metrics.ApplyTxsBatchVerifyTime.Observe(batchVerifyDuration.Seconds())
 	}
-	// set the store back to the original at the end of processing
-	originalStore := s.Store().(lib.StoreI)
-	defer s.SetStore(originalStore)
 	// create a variable to track if the block is over size
 	var oversize bool
+	// the slash tracker as it was before the first 'oversize' transaction
+	var preOversizeSlashTracker *SlashTracker
+	// set the store back to the original at the end of processing
+	originalStore := s.Store().(lib.StoreI)
+	defer func() {
+		s.SetStore(originalStore)
+		// 'oversize' transactions are executed on a discarded layer and aren't part of the block:
+		// what they left in the caches and the slash tracker must be discarded with it, otherwise
+		// the end block logic computes with the effects of transactions the block doesn't contain
+		if oversize {
+			s.ResetCaches()
+			s.slashTracker = preOversizeSlashTracker
+		}
+	}()
 	var executeDuration, flushDuration time.Duration
 	// iterates over each transaction in the block
 	for i, tx := range txs {
@@ -341,6 +352,7 @@ func (s *StateMachine) ApplyTransactions(ctx context.Context, txs [][]byte, r *l
 			}
 			// set oversize to 'true'
 			oversize = true
+			preOversizeSlashTracker = s.slashTracker.Clone()
 			// wrap the store in a 'database transaction' to rollback all the 'oversize transactions'
 			if _, e := s.TxnWrap(); e != nil {
 				return e
